@@ -212,8 +212,8 @@ class BigEdge:
         :rtype: list
         """
         vobject = self.get_vertex_object_by_id(vid)
-        if method == "edge" and len(self.vertices) == 2:
-            # a two-vertex big edge is a straight line: its direction is the chord itself
+        if method == "edge" and self.is_straight():
+            # no circle goes through collinear vertices: the direction is the chord itself
             return np.array(self.get_straight_edge_versor_from_vid(vid), dtype=float)
         if method == "edge":
             xc, yc = ve.calculate_circle_center(self.vertices, method=fit_method)
@@ -229,6 +229,23 @@ class BigEdge:
             correction = correct_sign * np.sign(vector)
             vector = vector * correction
         return vector
+
+    def is_straight(self) -> bool:
+        """
+        Check whether all the vertices of the big edge lie on one straight line
+
+        :return: True if the vertices are collinear (always the case for two vertices)
+        :rtype: bool
+        """
+        x0, y0 = self.vertices[0].x, self.vertices[0].y
+        dx, dy = self.vertices[-1].x - x0, self.vertices[-1].y - y0
+        chord_squared = dx * dx + dy * dy
+        if len(self.vertices) == 2:
+            return True
+        if chord_squared == 0:
+            return False
+        cross = [(v.x - x0) * dy - (v.y - y0) * dx for v in self.vertices]
+        return bool(np.all(np.abs(cross) <= 1e-12 * chord_squared))
 
     def get_vertex_object_by_id(self, vid: int) -> object:
         """
